@@ -18,8 +18,7 @@ LEVEL = "model_checking"
 F_SHORT = "C10/ipc-cut-at-message-boundary"
 F_ABORT = "C10/corrupt-length-aborts-process"
 MUTANTS = ["short_stream", "filter_ok", "retry_local", "http_empty", "ignore_decode", "skip_digest"]
-ACTIONS = ["FanOut", "ReplyOk", "TransportError", "HttpError", "DigestMismatch", "CutInHead", "CutAtTerminator", "CutInMessage",
-           "CutInMarker", "CutAtBoundary", "CutInEos", "Corrupt", "LocalOk", "LocalErr", "Collect", "Finish"]
+ACTIONS = ["FanOut", "Arrive", "LocalOk", "LocalErr", "Collect", "Finish"]   # the eleven reply actions are all instances of Arrive
 MODEL_KINDS = ["transport", "http", "digest", "trunc_hdr", "trunc_term", "trunc_inmsg", "trunc_marker", "trunc_boundary", "trunc_eos", "corrupt"]
 ONE_TABLE = ["concat", "group", "global", "topn", "join", "gdistinct", "tiny", "empty"]
 GARBAGE_VARIANTS = 6
@@ -552,6 +551,11 @@ def model_runs(ctx, quick):
         if killed[m] == 0:
             raise vlib.ToolError(f"the contract does not reject mutant {m} in any state: the invariants are too weak")
     ctx.set("mutants_rejected_by_the_contract", dict(sorted(killed.items())))
+    # every reply action was taken: each kind occurs in some terminal state (TLC reports them all under `Arrive`)
+    seen_kinds = {f["kind"] for c in cases for f in c["frags"]} | {"local_err" for c in cases if "err" in c["locals"]}
+    for k in MODEL_KINDS + ["ok", "local_err"]:
+        if k not in seen_kinds:
+            raise vlib.ToolError(f"Scatter: no terminal state with a fragment of kind {k} (action never taken)")
     if not quick:
         for a in ACTIONS:
             if cover.get(a, 0) == 0:
